@@ -46,6 +46,10 @@ def run(repo, rep, tier):
                       "ends an exception's propagation (tal:on-error) puts "
                       "the local variables back as they were on entry")
 
+    rep.rule("R05.9", "expression-local binders (lambda, comprehensions) "
+                      "open a copy of the enclosing scope and close it on "
+                      "every exit: no other expression is affected")
+
     binders = ["visit_Define", "visit_Repeat"]
     for name in binders:
         func = repo.func(COMP + name)
@@ -62,6 +66,11 @@ def run(repo, rep, tier):
 
     _marker_rule(repo, rep)
     _abnormal_exit_rule(repo, rep)
+    # names bound inside one expression (lambda parameters, comprehension
+    # variables) must not change how any other expression's names are
+    # looked up: the rewriter's scopes are copies, closed on every exit
+    from .c04 import _binders
+    _binders(repo, rep, rule="R05.9", handlers=False)
     _globals_rule(repo, rep)
     _reserved_rule(repo, rep)
     _nametransform_rule(repo, rep)
